@@ -97,7 +97,25 @@ static int run_case(int64_t lib_index, const Cfg& cfg, int cycles) {
     if (nontrivial(info, cfg)) R->count("nontrivial");
     Library* src = oas_corpus::build(lib_index);
     std::string fp0 = c02::source_fingerprint(*src);
-    c02::Model cur_model = c02::walk(*src);
+    const oas_corpus::Expected& expect = oas_corpus::expected(lib_index);
+    c02::Model cur_model = c02::walk(*src, expect.present);
+    if (expect.present && cur_model.problems.empty()) {
+        // members with a transformation history / non-simple paths: the model of what the file must denote comes
+        // from the corpus' own arithmetic on the construction parameters
+        c02::Model want = c02::model_from_expected(expect, *src, "A");
+        if (expect.all_simple) {
+            // the struct walk of the transformed source must tell the same story (otherwise the transformation
+            // itself, not the OASIS writer, is at fault: reported under its own class)
+            c02::CompareCtx c0;
+            c0.cycle = 0;
+            for (auto& d : c02::compare(want, cur_model, c0)) {
+                report("source_state_vs_construction:" + d.cls, d.tags, lib_index, cfg, 0, cycles, "in-memory path after its transformation history differs from the affine image of its construction parameters: " + d.detail);
+                nviol++;
+            }
+        }
+        R->count("cases_with_transformation_history");
+        cur_model = want;
+    }
     if (!cur_model.problems.empty()) {
         R->internal_error("corpus library " + std::to_string(lib_index) + " is outside the model: " + cur_model.problems[0]);
         oas_corpus::destroy(src);
@@ -207,6 +225,7 @@ static int run_case(int64_t lib_index, const Cfg& cfg, int cycles) {
         }
         R->count("elements_compared", ctx.elements_compared);
         if (ctx.circles_within_tolerance) { R->count("circles_reloaded_within_tolerance", ctx.circles_within_tolerance); outcome += "|circle"; }
+        if (ctx.outlines_equal_modulo_collinear) R->count("path_outlines_equal_after_removing_collinear_vertices", ctx.outlines_equal_modulo_collinear);
         if (ctx.orientation_reversed) { R->count("polygons_reloaded_with_reversed_orientation", ctx.orientation_reversed); outcome += "|reversed"; }
         if (g_verbose) {
             fprintf(stderr, "cycle %d: file %zu bytes, read error code %d; re-loaded model:\n  library properties %s\n", cycle, n, (int)rerr, c02::props_str(next_model.lib_props).c_str());
@@ -376,10 +395,12 @@ int main(int argc, char** argv) {
             if (!is_single(f) || f.lattice) continue;
             nlibs++;
             std::vector<double> tols = f.circle_family ? std::vector<double>{0, TOL, 1e-2} : f.many_vertices ? both_tols : std::vector<double>{0};
-            add_tasks(tasks, i, product(single_flag_sets(), levels, tols), 11, cycles);
+            // quick: the many-vertex circle / partial-disc members only under the flag sets that can interact with circle detection
+            std::vector<uint16_t> fsets = (!thorough && f.circle_family) ? std::vector<uint16_t>{0, OASIS_CONFIG_DETECT_ALL, 0xFF, OASIS_CONFIG_INCLUDE_CRC32} : single_flag_sets();
+            add_tasks(tasks, i, product(fsets, levels, tols), 11, cycles);
         }
-        run_tasks("singles", fmt("%lld single-element libraries (every family except the lattice polygons) x flag sets {0, DETECT_ALL, 0xFF, each single flag} x level {%s} x circle tolerance {0; and 1e-3 when a polygon has > 4 vertices; and 1e-2 for the circle / near-circle / partial-disc families} x %d cycles",
-                                 (long long)nlibs, thorough ? "0,1,9" : "0,6", cycles),
+        run_tasks("singles", fmt("%lld single-element libraries (every family except the lattice polygons) x flag sets {0, DETECT_ALL, 0xFF, each single flag} x level {%s} x circle tolerance {0; and 1e-3 when a polygon has > 4 vertices; and 1e-2 for the circle / near-circle / partial-disc families%s} x %d cycles",
+                                 (long long)nlibs, thorough ? "0,1,9" : "0,6", thorough ? "" : ", those families under flag sets {0, DETECT_ALL, 0xFF, CRC32} only", cycles),
                   tasks, 20);
     }
     // ---- 2. representative libraries (thorough: the whole reduced alphabet) x all 256 flag sets x levels x both tolerances
@@ -415,7 +436,7 @@ int main(int argc, char** argv) {
         if (thorough) {
             twice = product(single_flag_sets(), {0, 1, 9}, {0});
         } else {
-            for (auto& c : product(single_flag_sets(), {0, 6}, {0})) {
+            for (auto& c : product({0, OASIS_CONFIG_DETECT_RECTANGLES, OASIS_CONFIG_DETECT_TRAPEZOIDS, OASIS_CONFIG_DETECT_ALL, 0xFF}, {0, 6}, {0})) {
                 bool two = (c.flags == OASIS_CONFIG_DETECT_ALL && c.level == 0) || (c.flags == 0xFF && c.level == 6);
                 (two ? twice : once).push_back(c);
             }
@@ -427,7 +448,7 @@ int main(int argc, char** argv) {
             add_tasks(tasks, i, twice, 64, 2);
         }
         run_tasks("lattice", thorough ? fmt("%lld lattice polygons (each its own library) x flag sets {0, DETECT_ALL, 0xFF, each single flag} x level {0,1,9} x 2 cycles", (long long)nlibs)
-                                      : fmt("%lld lattice polygons (each its own library) x flag sets {0, DETECT_ALL, 0xFF, each single flag} x level {0,6}; 1 cycle, DETECT_ALL/level 0 and 0xFF/level 6 with 2 cycles", (long long)nlibs),
+                                      : fmt("%lld lattice polygons (each its own library) x flag sets {0, RECT, TRAP, DETECT_ALL, 0xFF} x level {0,6}; 1 cycle, DETECT_ALL/level 0 and 0xFF/level 6 with 2 cycles (the other single flags: thorough tier)", (long long)nlibs),
                   tasks, 20);
     }
     // ---- 4. thorough: the heavy library (buffer growth inside a CBLOCK) under a few configurations
